@@ -308,10 +308,7 @@ func decodeWire(t Type, format int16, src []byte) (Value, error) {
 		if dec(&v); err != nil {
 			return bad(err)
 		}
-		if v.Bytes == nil {
-			return []byte{}, nil
-		}
-		return append([]byte(nil), v.Bytes...), nil
+		return append([]byte{}, v.Bytes...), nil
 	case tTimestamp:
 		var v pgtype.Timestamp
 		if dec(&v); err != nil {
@@ -403,11 +400,7 @@ func decodeWire(t Type, format int16, src []byte) (Value, error) {
 		out := make([]Value, len(v.Elements))
 		for i, e := range v.Elements {
 			if e.Status == pgtype.Present {
-				b := append([]byte(nil), e.Bytes...)
-				if b == nil {
-					b = []byte{}
-				}
-				out[i] = b
+				out[i] = append([]byte{}, e.Bytes...)
 			}
 		}
 		return out, nil
